@@ -20,6 +20,8 @@ Contracts:
   not make the check inconclusive.)
 * `char::is_ascii_*`, `char::is_ascii`: exact ASCII ranges.
 * `str::contains::<char>` on a concrete haystack: disjunction over the characters of the haystack.
+* `<String|str as Index<RangeFull>>::index`: the whole string as `&str`.
+* `<Vec<T> as DerefMut>::deref_mut`: the mutable slice is the reference to the vector itself.
 * `Vec::last_mut` / `<[T]>::last_mut`: `None` for an empty vector, else a reference to the last slot.
 * `char::len_utf8` (override of the models_text one): when the character was produced by the `Chars` model
   on this path from a lead byte whose width class has already been decided, the width is that class — which
@@ -208,7 +210,23 @@ def m_str_contains_char(it, ctx, callee, args):
 
 
 # ------------------------------------------------------------------------------------------
+# &s[..]  (the argument prints as the unit struct constant `RangeFull`, which the generic range model does not take)
+
+@model(r"<(String|str) as (std::ops::|core::ops::)?Index<(std::ops::|core::ops::)?RangeFull>>::index")
+def m_index_full(it, ctx, callee, args):
+    return Slice(elems_of(args[0]), "str")
+
+
+# ------------------------------------------------------------------------------------------
 # Vec / slice
+
+@model(r"<Vec<.*> as (std::ops::|core::ops::)?DerefMut>::deref_mut|Vec::as_mut_slice")
+def m_vec_deref_mut(it, ctx, callee, args):
+    # `&mut [T]` is represented by the reference to the vector itself (writes go through to its slots)
+    if not isinstance(args[0], Ref):
+        raise Inconclusive("deref_mut through %r" % (args[0],))
+    return args[0]
+
 
 @model(r"Vec::last_mut|core::slice::<impl \[.*\]>::last_mut")
 def m_last_mut(it, ctx, callee, args):
@@ -265,3 +283,15 @@ def m_len_utf8(it, ctx, callee, args):
         raise Inconclusive("a %d byte sequence decodes to a scalar value outside U+%04X..U+%04X "
                            "(the &str invariant does not hold)" % (w, lo, hi))
     return MT.m_len_utf8(it, ctx, callee, args)
+
+
+# ------------------------------------------------------------------------------------------
+
+class LexInterp(MT.TextInterp):
+    """TextInterp + resolution of promoted constants of methods of types with a lifetime parameter: the
+    dump refers to them as `lexer::Lexer::<'_>::m::promoted[i]` and defines them as
+    `lexer::<impl at …>::m::promoted[i]` (normalised to `Lexer::m::promoted[i]`)."""
+
+    def lookup_const(self, fr, name):
+        n2 = re.sub(r"::<'[\w_]+(, *'[\w_]+)*>", "", name)
+        return MT.TextInterp.lookup_const(self, fr, n2)
